@@ -20,6 +20,8 @@ pub struct Prog {
     /// names of `=== function f(..)` with their parameter counts (from the source, when known)
     pub functions: Vec<(String, usize)>,
     pub externals: Vec<String>,
+    /// knots declared without parameters and not as functions (safe ChoosePath / flow targets)
+    pub plain_knots: Vec<String>,
 }
 
 pub enum CompileOutcome {
@@ -35,6 +37,7 @@ impl Prog {
                 let mut p = Prog::from_json(name, &json);
                 p.source = Some(source.to_string());
                 p.functions = functions_of_source(source);
+                p.plain_knots = plain_knots_of_source(source);
                 CompileOutcome::Ok(Rc::new(p))
             }
             Ok(Err(e)) => CompileOutcome::Rejected(e.to_string()),
@@ -53,6 +56,7 @@ impl Prog {
             stitches: vec![],
             functions: vec![],
             externals: vec![],
+            plain_knots: vec![],
         };
         if let Ok(v) = serde_json::from_str::<Value>(json)
             && let Some(root) = v.get("root")
@@ -192,6 +196,26 @@ pub fn functions_of_source(src: &str) -> Vec<(String, usize)> {
                 _ => 0,
             };
             out.push((name, params));
+        }
+    }
+    out
+}
+
+/// `=== name ===` headers without parameters (not functions)
+pub fn plain_knots_of_source(src: &str) -> Vec<String> {
+    let mut out = vec![];
+    for line in src.lines() {
+        let t = line.trim_start();
+        if !t.starts_with("==") {
+            continue;
+        }
+        let t = t.trim_start_matches('=').trim_start();
+        if t.starts_with("function") || t.contains('(') {
+            continue;
+        }
+        let name: String = t.chars().take_while(|c| c.is_alphanumeric() || *c == '_').collect();
+        if !name.is_empty() {
+            out.push(name);
         }
     }
     out
